@@ -480,6 +480,27 @@ def run_property(pid, tier, seed, t0, pin=False):
         print(f"KNOWN-FINDING: property={pid} {k.get('what','')} [{k.get('id','')}]")
     for ln in lines:
         print(ln)
+    if rc == 0 and undecided and p.get("replays") and not pin:
+        # The obligations could not be decided (front-end error after an API change, lost anchor, ...). Before giving
+        # up, run the native replay drivers registered for this property against the real code: a failing input found
+        # there is a demonstrated violation, whatever stopped the verifier (the replay file says so).
+        seen_cmds = []
+        for cmd in p["replays"].values():
+            if cmd in seen_cmds:
+                continue
+            seen_cmds.append(cmd)
+            found, out = run_replay_search(cmd, seed)
+            if found:
+                os.makedirs(os.path.join(REPLAY_DIR, pid), exist_ok=True)
+                path = os.path.join(REPLAY_DIR, pid, "undecided_" + re.sub(r"[^A-Za-z0-9_.-]+", "_", "_".join(cmd)) + ".json")
+                with open(path, "w") as fh:
+                    json.dump({"property": pid, "engine": "E1 verus (undecided) + native replay driver",
+                               "obligation": "not decidable on this tree: " + " | ".join(undecided)[:1500],
+                               "failing_input_found": True, "replay_cmd": ["nuts-replay"] + cmd, "replay_output": out[-4000:]}, fh, indent=1)
+                nviol += 1
+                rc = 1
+                print(f"  verifier undecided, but the native driver {' '.join(cmd)} found a failing input on the real code")
+                print(f"VIOLATION property={pid} replay={path}")
     if rc == 0 and undecided:
         rc = 2
         print(f"UNDECIDED property={pid} reason=" + " | ".join(undecided)[:2000])
